@@ -313,7 +313,7 @@ func init() {
 	register(&CheckDef{
 		ID:    "C06",
 		Title: "Merge preserves every key's value and actually reclaims the garbage",
-		Reach: []string{"done", "merge-done", "merged-record-checked", "fewer-files-out", "batch-committed"},
+		Reach: []string{"done", "merge-done", "merged-record-checked", "fewer-files-out", "batch-committed", "second-generation"},
 		Jobs: func(tier string) []JobSpec {
 			var js []JobSpec
 			add := func(name string, params map[string]int64) {
@@ -325,12 +325,14 @@ func init() {
 				add("plain-k3-permute-big", merge(base, p("k", 3, "ops", opPut|opDelete, "vlens", 3, "vbig", 25, "permute", 1)))
 				add("batch-k2", merge(base, p("k", 2, "ops", opPut|opBatch, "bmax", 2)))
 				add("btree-mmap-k2", merge(base, p("k", 2, "ops", opPut|opDelete, "index", 1, "io", 1, "post", 1)))
+				add("second-generation-k2", merge(base, p("premerge", 2, "k", 2, "ops", opPut|opDelete, "vlens", 1)))
 			} else {
 				add("plain-k4-post", merge(base, p("k", 4, "ops", opPut|opDelete, "post", 1)))
 				add("plain-k4-permute-big", merge(base, p("k", 4, "ops", opPut|opDelete, "vlens", 3, "vbig", 25, "permute", 1)))
 				add("batch-k3-post", merge(base, p("k", 3, "ops", opPut|opDelete|opBatch, "bmax", 2, "post", 1)))
 				add("two-merges-k3", merge(base, p("k", 3, "ops", opPut|opDelete|opMerge|opRestart, "post", 1)))
 				add("skiplist-mmap-k3", merge(base, p("k", 3, "ops", opPut|opDelete, "index", 2, "io", 1, "post", 1)))
+				add("second-generation-k3-post", merge(base, p("premerge", 2, "k", 3, "ops", opPut|opDelete, "post", 1)))
 			}
 			js = append(js, JobSpec{Name: "witness", Harness: "root", Func: "verifHarnessC06", Params: merge(base, p("k", 1, "ops", opPut, "witness", 1)), Scale: scaleDF(32), Witness: true})
 			return js
